@@ -59,6 +59,7 @@ def _cfg_ok(attrs, features):
 def parse_defs(src_dir, features):
     """returns (enums: name -> [variant names], structs: name -> [field names])"""
     enums, structs, ambiguous = {}, {}, set()
+    qualified = {}
     for dirpath, _, files in os.walk(os.path.join(src_dir, 'src')):
         for f in sorted(files):
             if not f.endswith('.rs'): continue
@@ -67,6 +68,12 @@ def parse_defs(src_dir, features):
             raw = re.sub(r'#\[cfg\(feature\s*=\s*"([\w-]+)"\)\]', r'#[cfgfeat_\1]', raw)
             raw = re.sub(r'#\[cfg\(not\(feature\s*=\s*"([\w-]+)"\)\)\]', r'#[cfgnotfeat_\1]', raw)
             s = _strip_comments(raw)
+            # drop `#[cfg(test)] mod x { .. }` blocks: their private helper types shadow the real definitions
+            while True:
+                mt = re.search(r'#\[cfg\(test\)\]\s*(?:pub(?:\([^)]*\))?\s+)?mod\s+\w+\s*\{', s)
+                if not mt: break
+                try: s = s[:mt.start()] + s[_match(s, mt.end() - 1, '{', '}') + 1:]
+                except ValueError: s = s[:mt.start()]      # raw strings confuse the brace matcher; test modules end the file
             for m in re.finditer(r'\b(enum|struct)\s+(\w+)\s*(<[^{;(]*>)?\s*(where[^{;]*)?\{', s):
                 kind, name = m.group(1), m.group(2)
                 # item-level cfg: look back over attributes
@@ -88,11 +95,13 @@ def parse_defs(src_dir, features):
                     else:
                         mm = re.match(r'(?:pub(?:\([^)]*\))?\s+)?(\w+)\s*:', item2)
                     if mm: names.append(mm.group(1))
+                qualified[(os.path.relpath(os.path.join(dirpath, f), src_dir), name)] = names
                 table = enums if kind == 'enum' else structs
                 if name in table and table[name] != names: ambiguous.add((kind, name))
                 table.setdefault(name, names)
     for kind, name in ambiguous:
         (enums if kind == 'enum' else structs)[name] = None   # refuse to guess
+    parse_defs.qualified = qualified
     return enums, structs
 
 def _attrs_enabled(attrs, features):
